@@ -420,6 +420,8 @@ def cases(tier, seed):
         net = gen_net(rng, rng.randint(2, 5), p=0.8, card1=0.1)
         backend = rng.choice(["numpy", "torch64", "torch32"])
         c = {"kind": "factor", "net": net, "rep": gen_rep(rng, net), "fseed": rng.randint(0, 10**9), "backend": backend}
+        if k in (0, 3):
+            backend = c["backend"] = "torch64"
         if k % 3 == 0:
             big = 100 if backend == "torch32" else 900
             ea = rng.choice([-1, 1]) * rng.randint(big // 3, big)
@@ -657,6 +659,35 @@ def canon_factor(b, phi, Q, extra=None):
             key.append(b.lab2canon[q][lab])
         out[tuple(key)] = float(vals[idx])
     return out
+
+
+TORCH32_KEY = "torch-backend-float32-construction"
+
+
+def F32(x):
+    """the float32 rounding of an exact value, as an exact Fraction; None when it overflows to inf"""
+    import numpy as np
+
+    r = float(np.float32(float(x)))
+    if r != r or r in (float("inf"), float("-inf")):
+        return None
+    return Fraction(r)
+
+
+def net_f32(net):
+    """the network whose CPD entries went through float32 (what the torch constructors store, open finding
+    torch-backend-float32-construction); None if nothing changes"""
+    import copy
+
+    n2 = copy.deepcopy(net)
+    changed = False
+    for c in n2["cpt"]:
+        for k, (a, d) in enumerate(c["flat"]):
+            r = F32(Fraction(a, d))
+            if r != Fraction(a, d):
+                changed = True
+            c["flat"][k] = _fr(r)
+    return n2 if changed else None
 
 
 def rel_close(a, b, tol):
@@ -962,8 +993,17 @@ def run_repr(case, drv):
         else:
             err = check_answer(ans, ref, Q, net, drv, ev, tol)
             if err:
-                return bad("impl!=model", {"engine": engine, "err": err, "rep": rep["nstyle"] + "/" + rep["sstyle"]},
-                           key=key, tags=tags)
+                fk = None
+                n32 = net_f32(net) if case["backend"] == "torch64" else None
+                if n32 is not None:
+                    # diagnosed class: torch backend AND an input entry that is not a float32 AND pgmpy's answer is
+                    # the model's answer on the float32-rounded inputs
+                    ref32 = ref_posterior(drv, n32, Q, ev)
+                    if sum(ref32.values()) != 0 and check_answer(ans, ref32, Q, net, drv, ev, tol) is None:
+                        fk = TORCH32_KEY
+                return bad("impl!=model", {"engine": engine, "err": err, "rep": rep["nstyle"] + "/" + rep["sstyle"],
+                                           "backend": case["backend"]},
+                           finding=fk, key=key, tags=tags + (["diag:torch-f32"] if fk else []))
         ch = w.diff()
         if ch:
             return bad("mutated-argument", {"call": engine, "changed": ch}, key=key, tags=tags)
@@ -989,6 +1029,23 @@ def max_marginal_ref(net, Q, ev):
 
 # ------------------------------------------------------------------- factor operations
 def run_factor(case, drv):
+    out = _run_factor(case, drv, False)
+    if not out["ok"] and out.get("kind") == "impl!=spec" and case["backend"] == "torch64":
+        # diagnosed class (open finding): an input entry that float32 cannot hold, and pgmpy equals the spec on
+        # the float32-rounded inputs (when an input overflows to inf only the first two conditions can be checked)
+        why = out["detail"].get("f32")
+        if why == "overflow":
+            out["finding"] = TORCH32_KEY
+            out["tags"] = out["tags"] + ["diag:torch-f32-range"]
+        elif why == "inexact":
+            out2 = _run_factor(case, drv, True)
+            if out2["ok"]:
+                out["finding"] = TORCH32_KEY
+                out["tags"] = out["tags"] + ["diag:torch-f32"]
+    return out
+
+
+def _run_factor(case, drv, r32):
     import numpy as np
 
     net, rep = case["net"], case["rep"]
@@ -1015,17 +1072,28 @@ def run_factor(case, drv):
         vi, vj = b.idx[f.variables[0]], b.idx[g.variables[0]]
         # reference: product, then marginal over one variable, then reduce
         scope = sorted(set(b.idx[v] for v in prod.variables))
-        fa = [[vi] + net["cpt"][vi]["parents"], canon_cpt(net, vi)]
-        ga = [[vj] + net["cpt"][vj]["parents"], canon_cpt(net, vj)]
+        fa = [[vi] + net["cpt"][vi]["parents"], {k_: v_ * Fraction(2) ** sa for k_, v_ in canon_cpt(net, vi).items()}]
+        ga = [[vj] + net["cpt"][vj]["parents"], {k_: v_ * Fraction(2) ** sb for k_, v_ in canon_cpt(net, vj).items()}]
+        # does float32 hold every input entry?  (the torch constructors store float32-rounded values)
+        f32why = None
+        for tab, sc in ((fa[1], sa), (ga[1], sb)):
+            for k_, v_ in tab.items():
+                inner = F32(v_ / Fraction(2) ** sc)                 # the CPD entry as stored
+                r_ = None if inner is None else F32(inner * Fraction(2) ** sc)
+                if r_ is None:
+                    f32why = "overflow"
+                elif r_ != v_ and f32why is None:
+                    f32why = "inexact"
+                if r32 and r_ is not None:
+                    tab[k_] = r_
         want = {}
         for full in itertools.product(*[range(net["cards"][q]) for q in scope]):
             a = dict(zip(scope, full))
-            want[full] = fa[1][tuple(a[q] for q in fa[0])] * ga[1][tuple(a[q] for q in ga[0])] * \
-                (Fraction(2) ** (sa + sb))
+            want[full] = fa[1][tuple(a[q] for q in fa[0])] * ga[1][tuple(a[q] for q in ga[0])]
         got = canon_factor(b, prod, scope)
         e = cmp_tables(got, want, tol)
         if e:
-            return bad("impl!=spec", {"op": "product", "err": e}, key=key, tags=tags)
+            return bad("impl!=spec", {"op": "product", "err": e, "f32": f32why}, key=key, tags=tags)
         x = rng.choice(scope)
         if len(scope) > 1:
             marg = prod.marginalize([b.names[x]], inplace=False)
@@ -1038,20 +1106,20 @@ def run_factor(case, drv):
                 wx[kk] = max(wx.get(kk, 0), p)
             e = cmp_tables(canon_factor(b, marg, rest), wm, tol) or cmp_tables(canon_factor(b, mx, rest), wx, tol)
             if e:
-                return bad("impl!=spec", {"op": "marginalize/maximize", "err": e}, key=key, tags=tags)
+                return bad("impl!=spec", {"op": "marginalize/maximize", "err": e, "f32": f32why}, key=key, tags=tags)
             s = rng.randrange(net["cards"][x])
             red = prod.reduce([(b.names[x], b.labels[x][s])], inplace=False)
             wr = {tuple(t for q, t in zip(scope, full) if q != x): p for full, p in want.items()
                   if full[scope.index(x)] == s}
             e = cmp_tables(canon_factor(b, red, rest), wr, tol)
             if e:
-                return bad("impl!=spec", {"op": "reduce", "err": e}, key=key, tags=tags)
+                return bad("impl!=spec", {"op": "reduce", "err": e, "f32": f32why}, key=key, tags=tags)
         nz = prod.normalize(inplace=False)
         tot = sum(want.values())
         if tot:
             e = cmp_tables(canon_factor(b, nz, scope), {kk: p / tot for kk, p in want.items()}, tol)
             if e:
-                return bad("impl!=spec", {"op": "normalize", "err": e}, key=key, tags=tags)
+                return bad("impl!=spec", {"op": "normalize", "err": e, "f32": f32why}, key=key, tags=tags)
         _ = f + g if set(f.variables) == set(g.variables) else None
         _ = prod.divide(g, inplace=False) if all(float(t) != 0 for t in np_values(g.values).ravel()) else None
         ch = w.diff()
@@ -1158,6 +1226,39 @@ def same_answer(x, y):
     return x[1:] == y[1:]
 
 
+def model_table(mod, net, nb):
+    m_scope, m_tab = mod[0], [common.frac(x) for x in mod[1]]
+    mcards = [net["cards"][v] if v < nb else 2 for v in m_scope]
+    return {idx: m_tab[kx] for kx, idx in enumerate(itertools.product(*[range(c) for c in mcards]))}
+
+
+def answer_vs_model(a_h, mod, net, nb, b):
+    """pgmpy's canonical answer against the extracted model's (scope, table): None or an error string"""
+    m_scope = mod[0]
+    mtable = model_table(mod, net, nb)
+    if a_h[0] == "table":
+        Qs = a_h[1]
+        want = {}
+        for idx, p in mtable.items():
+            kk = tuple(idx[m_scope.index(v)] for v in Qs)
+            want[kk] = want.get(kk, 0) + p
+        return cmp_tables(a_h[2], want, TOL)
+    if a_h[0] == "map":
+        got = {}
+        for v, st in a_h[1].items():
+            if isinstance(v, int):
+                got[v] = st
+            else:  # an auxiliary "__X" node: state 0/1 printed as repr
+                x = [j for j in range(nb) if repr("__" + str(b.names[j])) == v]
+                got[nb + x[0] if x else v] = int(st)
+        if set(got) != set(m_scope):
+            return "map scope %r, model scope %r" % (sorted(map(str, got)), sorted(m_scope))
+        kk = tuple(got[v] for v in m_scope)
+        if not rel_close(float(mtable[kk]), float(max(mtable.values())), 1e-9):
+            return "map assignment %r is not a mode of the model's table" % (kk,)
+    return None
+
+
 class ArgCache(dict):
     """argument objects reused across the calls of a session, with a deep snapshot taken before first use"""
 
@@ -1261,34 +1362,18 @@ def _run_history(case, drv):
             return bad("engine-model-residue" if nodes1 != nodes0 else "impl!=model",
                        dict(where, what="nodes of engine.model after the question", impl=nodes1,
                             model=sorted(mname(v) for v in m_after)), key=key, tags=tags)
-        mcards = [net["cards"][v] if v < nb else 2 for v in m_scope]
-        mtable = {}
-        for kx, idx in enumerate(itertools.product(*[range(c) for c in mcards])):
-            mtable[idx] = m_tab[kx]
-        err = None
-        if a_h[0] == "table":
-            Qs = a_h[1]
-            want = {}
-            for idx, p in mtable.items():
-                kk = tuple(idx[m_scope.index(v)] for v in Qs)
-                want[kk] = want.get(kk, 0) + p
-            err = cmp_tables(a_h[2], want, TOL)
-        elif a_h[0] == "map":
-            got = {}
-            for v, st in a_h[1].items():
-                if isinstance(v, int):
-                    got[v] = st
-                else:  # a "__X" node: state 0/1 printed as repr
-                    x = [j for j in range(nb) if repr("__" + str(b.names[j])) == v]
-                    got[nb + x[0] if x else v] = int(st)
-            if set(got) != set(m_scope):
-                err = "map scope %r, model scope %r" % (sorted(map(str, got)), sorted(m_scope))
-            else:
-                kk = tuple(got[v] for v in m_scope)
-                if not common.approx(float(mtable[kk]), float(max(mtable.values())), 1e-9):
-                    err = "map assignment %r is not a mode of the model's table" % (kk,)
+        mtable = model_table(mod, net, nb)
+        err = answer_vs_model(a_h, mod, net, nb, b)
         if err:
-            return bad("impl!=model", dict(where, what="answer of the shared engine", err=err), key=key, tags=tags)
+            fk = None
+            n32 = net_f32(net) if case.get("backend") == "torch64" else None
+            if n32 is not None:
+                v32 = drv.call_e("c16_history", [nb, net["cards"], model_factors(n32), list(hw[:-1]), qw])
+                if v32[0] == "ok" and answer_vs_model(a_h, v32[1], net, nb, b) is None:
+                    fk = TORCH32_KEY
+            return bad("impl!=model", dict(where, what="answer of the shared engine", err=err,
+                                           backend=case.get("backend")),
+                       finding=fk, key=key, tags=tags + (["diag:torch-f32"] if fk else []))
         # ---- the property: the same as a fresh engine; the same when asked again
         if not same_answer(a_h, a_f):
             if not (a_h[0] == "map" and a_f[0] == "map" and set(a_h[1]) == set(a_f[1])
